@@ -107,6 +107,8 @@ impl SyncTable {
         key_index: Id,
         reentrant: Reentrancy,
     ) -> ClaimResult<'me> {
+        #[cfg(salsa_verif)]
+        crate::verif_trace::perturb();
         let hash = FxBuildHasher.hash_one(key_index);
         let shard = self.shard_for(hash);
         let mut write = shard.syncs.lock();
@@ -128,8 +130,22 @@ impl SyncTable {
                         ) {
                             Ok(claimed) => claimed,
                             Err(other_thread) => match other_thread.block(write) {
-                                BlockResult::Cycle => ClaimResult::Cycle { inner: false },
-                                BlockResult::Running(running) => ClaimResult::Running(running),
+                                BlockResult::Cycle => {
+                                    #[cfg(salsa_verif)]
+                                    verif::claim("try_claim", self.ingredient, key_index, reentrant, None);
+                                    ClaimResult::Cycle { inner: false }
+                                }
+                                BlockResult::Running(running) => {
+                                    #[cfg(salsa_verif)]
+                                    verif::claim(
+                                        "try_claim",
+                                        self.ingredient,
+                                        key_index,
+                                        reentrant,
+                                        Some(running.verif_other_id()),
+                                    );
+                                    ClaimResult::Running(running)
+                                }
                             },
                         };
                     }
@@ -149,8 +165,16 @@ impl SyncTable {
                     id,
                     write,
                 ) {
-                    BlockResult::Running(blocked_on) => ClaimResult::Running(blocked_on),
-                    BlockResult::Cycle => ClaimResult::Cycle { inner: false },
+                    BlockResult::Running(blocked_on) => {
+                        #[cfg(salsa_verif)]
+                        verif::claim("try_claim", self.ingredient, key_index, reentrant, Some(id));
+                        ClaimResult::Running(blocked_on)
+                    }
+                    BlockResult::Cycle => {
+                        #[cfg(salsa_verif)]
+                        verif::claim("try_claim", self.ingredient, key_index, reentrant, None);
+                        ClaimResult::Cycle { inner: false }
+                    }
                 }
             }
             Entry::Vacant(vacant_entry) => {
@@ -161,6 +185,8 @@ impl SyncTable {
                     is_transfer_target: false,
                     claimed_twice: false,
                 });
+                #[cfg(salsa_verif)]
+                verif::answer("try_claim", self.ingredient, key_index, reentrant, "claimed");
                 ClaimResult::Claimed(ClaimGuard {
                     key_index,
                     zalsa,
@@ -189,8 +215,22 @@ impl SyncTable {
                         return match self.peek_claim_transferred(zalsa, occupied_entry, reentrant) {
                             Ok(claimed) => claimed,
                             Err(other_thread) => match other_thread.block(write) {
-                                BlockResult::Cycle => ClaimResult::Cycle { inner: false },
-                                BlockResult::Running(running) => ClaimResult::Running(running),
+                                BlockResult::Cycle => {
+                                    #[cfg(salsa_verif)]
+                                    verif::claim("peek_claim", self.ingredient, key_index, reentrant, None);
+                                    ClaimResult::Cycle { inner: false }
+                                }
+                                BlockResult::Running(running) => {
+                                    #[cfg(salsa_verif)]
+                                    verif::claim(
+                                        "peek_claim",
+                                        self.ingredient,
+                                        key_index,
+                                        reentrant,
+                                        Some(running.verif_other_id()),
+                                    );
+                                    ClaimResult::Running(running)
+                                }
                             },
                         };
                     }
@@ -210,11 +250,23 @@ impl SyncTable {
                     id,
                     write,
                 ) {
-                    BlockResult::Running(blocked_on) => ClaimResult::Running(blocked_on),
-                    BlockResult::Cycle => ClaimResult::Cycle { inner: false },
+                    BlockResult::Running(blocked_on) => {
+                        #[cfg(salsa_verif)]
+                        verif::claim("peek_claim", self.ingredient, key_index, reentrant, Some(id));
+                        ClaimResult::Running(blocked_on)
+                    }
+                    BlockResult::Cycle => {
+                        #[cfg(salsa_verif)]
+                        verif::claim("peek_claim", self.ingredient, key_index, reentrant, None);
+                        ClaimResult::Cycle { inner: false }
+                    }
                 }
             }
-            Err(_) => ClaimResult::Claimed(()),
+            Err(_) => {
+                #[cfg(salsa_verif)]
+                verif::answer("peek_claim", self.ingredient, key_index, reentrant, "claimed");
+                ClaimResult::Claimed(())
+            }
         }
     }
 
@@ -244,6 +296,8 @@ impl SyncTable {
 
                 *id = SyncOwner::Thread(thread_id);
                 *claimed_twice = true;
+                #[cfg(salsa_verif)]
+                verif::answer("try_claim", self.ingredient, key_index, reentrant, "reclaimed");
 
                 Ok(ClaimResult::Claimed(ClaimGuard {
                     key_index,
@@ -253,12 +307,24 @@ impl SyncTable {
                     mode: ReleaseMode::SelfOnly,
                 }))
             }
-            BlockTransferredResult::ImTheOwner => Ok(ClaimResult::Cycle { inner: true }),
+            BlockTransferredResult::ImTheOwner => {
+                #[cfg(salsa_verif)]
+                verif::answer("try_claim", self.ingredient, key_index, reentrant, "cycle_inner");
+                Ok(ClaimResult::Cycle { inner: true })
+            }
             BlockTransferredResult::OwnedBy(other_thread) => {
                 entry.get_mut().anyone_waiting = true;
                 Err(other_thread)
             }
             BlockTransferredResult::Released => {
+                #[cfg(salsa_verif)]
+                verif::answer(
+                    "try_claim",
+                    self.ingredient,
+                    key_index,
+                    reentrant,
+                    "released_claimed",
+                );
                 *entry.get_mut() = SyncState {
                     key: key_index,
                     id: SyncOwner::Thread(thread_id),
@@ -294,14 +360,30 @@ impl SyncTable {
             .block_transferred(database_key_index, thread_id)
         {
             BlockTransferredResult::ImTheOwner if reentrant.is_allow() => {
+                #[cfg(salsa_verif)]
+                verif::answer("peek_claim", self.ingredient, key_index, reentrant, "reclaimed");
                 Ok(ClaimResult::Claimed(()))
             }
-            BlockTransferredResult::ImTheOwner => Ok(ClaimResult::Cycle { inner: true }),
+            BlockTransferredResult::ImTheOwner => {
+                #[cfg(salsa_verif)]
+                verif::answer("peek_claim", self.ingredient, key_index, reentrant, "cycle_inner");
+                Ok(ClaimResult::Cycle { inner: true })
+            }
             BlockTransferredResult::OwnedBy(other_thread) => {
                 entry.get_mut().anyone_waiting = true;
                 Err(other_thread)
             }
-            BlockTransferredResult::Released => Ok(ClaimResult::Claimed(())),
+            BlockTransferredResult::Released => {
+                #[cfg(salsa_verif)]
+                verif::answer(
+                    "peek_claim",
+                    self.ingredient,
+                    key_index,
+                    reentrant,
+                    "released_claimed",
+                );
+                Ok(ClaimResult::Claimed(()))
+            }
         }
     }
 
@@ -314,6 +396,10 @@ impl SyncTable {
     pub(super) fn mark_as_transfer_target(&self, key_index: Id) -> Option<SyncOwner> {
         let hash = FxBuildHasher.hash_one(key_index);
         let mut syncs = self.shard_for(hash).syncs.lock();
+        #[cfg(salsa_verif)]
+        if syncs.find(hash, |state| state.key == key_index).is_none() {
+            verif::mark_as_transfer_target(self.ingredient, key_index, None);
+        }
         syncs
             .find_mut(hash, |state| state.key == key_index)
             .map(|state| {
@@ -323,6 +409,8 @@ impl SyncTable {
                 // so that `ClaimGuard::release` no longer exits early.
                 state.anyone_waiting = true;
                 state.is_transfer_target = true;
+                #[cfg(salsa_verif)]
+                verif::mark_as_transfer_target(self.ingredient, key_index, Some(state.id));
 
                 state.id
             })
@@ -399,6 +487,8 @@ impl<'me> ClaimGuard<'me> {
             self.database_key_index(),
             result
         );
+        #[cfg(salsa_verif)]
+        verif::line("release_panicking", self.database_key_index(), &format!("{result:?}"));
         self.release(state, result);
     }
 
@@ -410,6 +500,16 @@ impl<'me> ClaimGuard<'me> {
             claimed_twice,
             ..
         } = state;
+
+        #[cfg(salsa_verif)]
+        verif::line(
+            "release",
+            self.database_key_index(),
+            &format!(
+                "{wait_result:?} aw={} tt={} c2={}",
+                anyone_waiting as u8, is_transfer_target as u8, claimed_twice as u8
+            ),
+        );
 
         if !anyone_waiting {
             return;
@@ -441,7 +541,11 @@ impl<'me> ClaimGuard<'me> {
         if state.get().claimed_twice {
             state.get_mut().claimed_twice = false;
             state.get_mut().id = SyncOwner::Transferred;
+            #[cfg(salsa_verif)]
+            verif::line("release_self", self.database_key_index(), "to_transferred");
         } else {
+            #[cfg(salsa_verif)]
+            verif::line("release_self", self.database_key_index(), "release");
             self.release(state.remove().0, WaitResult::Completed);
         }
     }
@@ -462,6 +566,12 @@ impl<'me> ClaimGuard<'me> {
             .sync_table()
             .mark_as_transfer_target(new_owner.key_index())
         else {
+            #[cfg(salsa_verif)]
+            verif::line(
+                "transfer_no_target",
+                self.database_key_index(),
+                &crate::verif_trace::K(new_owner).to_string(),
+            );
             self.release(
                 self.shard
                     .syncs
@@ -491,6 +601,12 @@ impl<'me> ClaimGuard<'me> {
 
         *id = SyncOwner::Transferred;
         *claimed_twice = false;
+        #[cfg(salsa_verif)]
+        verif::line(
+            "transfer",
+            self_key,
+            &crate::verif_trace::K(new_owner).to_string(),
+        );
 
         self.zalsa
             .runtime()
@@ -610,5 +726,79 @@ pub(crate) enum Reentrancy {
 impl Reentrancy {
     const fn is_allow(self) -> bool {
         matches!(self, Reentrancy::Allow)
+    }
+}
+
+/// Verification hook (compiled only with `--cfg salsa_verif`): `sync <op> t<me> <key> ...` lines,
+/// emitted while the shard lock is held.
+#[cfg(salsa_verif)]
+mod verif {
+    use super::{Reentrancy, SyncOwner};
+    use crate::key::DatabaseKeyIndex;
+    use crate::sync::thread::ThreadId;
+    use crate::verif_trace::{K, emit_with};
+    use crate::{Id, IngredientIndex};
+
+    fn reentrancy(r: Reentrancy) -> &'static str {
+        if r.is_allow() { "allow" } else { "deny" }
+    }
+
+    /// `sync <op> t<me> <key> <rest>`
+    pub(super) fn line(op: &str, key: DatabaseKeyIndex, rest: &str) {
+        emit_with("sync", op, |_, o| {
+            o.push_str(&K(key).to_string());
+            o.push(' ');
+            o.push_str(rest);
+        });
+    }
+
+    /// `sync try_claim|peek_claim t<me> <key> <allow|deny> <answer>`
+    pub(super) fn answer(
+        op: &str,
+        ingredient: IngredientIndex,
+        key: Id,
+        reentrant: Reentrancy,
+        answer: &str,
+    ) {
+        line(
+            op,
+            DatabaseKeyIndex::new(ingredient, key),
+            &format!("{} {answer}", reentrancy(reentrant)),
+        );
+    }
+
+    /// `... running:t<other>` (`Some`) or `... cycle` (`None`)
+    pub(super) fn claim(
+        op: &str,
+        ingredient: IngredientIndex,
+        key: Id,
+        reentrant: Reentrancy,
+        running: Option<ThreadId>,
+    ) {
+        emit_with("sync", op, |t, o| {
+            o.push_str(&K(DatabaseKeyIndex::new(ingredient, key)).to_string());
+            o.push(' ');
+            o.push_str(reentrancy(reentrant));
+            match running {
+                Some(other) => o.push_str(&format!(" running:t{}", t.t(other))),
+                None => o.push_str(" cycle"),
+            }
+        });
+    }
+
+    /// `sync mark_as_transfer_target t<me> <key> <T:t<owner>|X|none>`
+    pub(super) fn mark_as_transfer_target(
+        ingredient: IngredientIndex,
+        key: Id,
+        owner: Option<SyncOwner>,
+    ) {
+        emit_with("sync", "mark_as_transfer_target", |t, o| {
+            o.push_str(&K(DatabaseKeyIndex::new(ingredient, key)).to_string());
+            match owner {
+                Some(SyncOwner::Thread(th)) => o.push_str(&format!(" T:t{}", t.t(th))),
+                Some(SyncOwner::Transferred) => o.push_str(" X"),
+                None => o.push_str(" none"),
+            }
+        });
     }
 }
